@@ -367,7 +367,14 @@ class Zeroconf(QuietLogger):
         """Registers service information to the network with a default TTL.
         Zeroconf will then respond to requests for information for that
         service."""
+        replaced = self.registry.async_get_info_name(info.key)
         self.registry.async_update(info)
+        if replaced is not None and replaced is not info:
+            # Answers built from the replaced ServiceInfo may still be waiting in
+            # the multicast queues, they would advertise the old SRV/TXT after the update
+            outdated = [replaced.dns_pointer(), replaced.dns_service(), replaced.dns_text()]
+            self.out_queue.async_remove_records(outdated)
+            self.out_delay_queue.async_remove_records(outdated)
         return asyncio.ensure_future(self._async_broadcast_service(info, _REGISTER_TIME, None))
 
     async def async_get_service_info(
